@@ -130,6 +130,10 @@ fn perm_lists(quick: bool) -> Vec<(String, String)> {
     out.push(("bob".to_string(), "rwix *".to_string()));
     out.push(("bob".to_string(), "r k*|w *k".to_string()));
     out.push(("bob".to_string(), "rx zz,akb".to_string()));
+    // one statement, several patterns of different forms (prefix, suffix, contains)
+    out.push(("bob".to_string(), "r k*,*b".to_string()));
+    out.push(("bob".to_string(), "rw *k,a*".to_string()));
+    out.push(("bob".to_string(), "rx zz,k*,*k".to_string()));
     out.push(("all".to_string(), "r k*".to_string()));
     out.push(("all".to_string(), "rwix *".to_string()));
     out
